@@ -526,6 +526,8 @@ pub fn noapi_templates() -> Vec<(&'static str, String, String)> {
     t("OffsetArc must not give mutable access through Deref", "let mut a = triomphe::Arc::into_raw_offset(triomphe::Arc::new(1u8)); *a = 2;", "let mut a = triomphe::Arc::into_raw_offset(triomphe::Arc::new(1u8)); *a.make_mut() = 2;");
     t("ThinArc must not give mutable access through Deref", "let mut t = triomphe::ThinArc::from_header_and_slice(1u8, &[1u16]); t.header.header = 2;", "let t = triomphe::ThinArc::from_header_and_slice(1u8, &[1u16]); let _h = t.header.header;");
     t("ArcBorrow must not give mutable access", "let a = triomphe::Arc::new(1u8); let mut b = a.borrow_arc(); *b = 2;", "let a = triomphe::Arc::new(1u8); let b = a.borrow_arc(); let _x = *b;");
+    t("the recorded length behind a Protected header must not be writable from safe code", "let mut t = triomphe::ThinArc::from_header_and_slice(1u8, &[1u16, 2]); t.with_arc_mut(|a| { triomphe::Arc::get_mut(a).unwrap().header.length = 1000; });", "let mut t = triomphe::ThinArc::from_header_and_slice(1u8, &[1u16, 2]); t.with_arc_mut(|a| { *triomphe::Arc::get_mut(a).unwrap().header_mut() = 2; });");
+    t("the Protected type must not deref to the unchecked header slice", "fn f(p: &mut triomphe::HeaderSliceWithLengthProtected<u8, u16>) -> &mut triomphe::HeaderSlice<triomphe::HeaderWithLength<u8>, [u16]> { &mut **p }", "fn f(p: &mut triomphe::HeaderSliceWithLengthProtected<u8, u16>) -> &mut [u16] { p.slice_mut() }");
     t("ArcBorrow must not be constructible from a plain reference by From/Into", "fn f(r: &u8) -> triomphe::ArcBorrow<'_, u8> { r.into() }", "fn f(a: &triomphe::Arc<u8>) -> triomphe::ArcBorrow<'_, u8> { a.borrow_arc() }");
     v
 }
@@ -547,6 +549,58 @@ pub fn unsafe_probes() -> Vec<Probe> {
         out.push(Probe { class, name: format!("upos_{}", i), body: format!("    {}", pos), expect_reject: false, what: format!("{} [legal twin, must compile]", name), nontrivial: false });
     }
     out
+}
+
+/// A line-based inventory of the public surface of /repo/src: every `impl` header and every `pub fn` under it.
+/// Compared with /verif/api_baseline.txt (generated from the pinned tree by `tv api-inventory`): items that are
+/// NEW are listed in the run's output and evidence as "not covered by any check". They are not violations — a new
+/// item may be perfectly sound — but no enumeration in this directory can have listed them.
+pub fn api_inventory() -> Vec<String> {
+    let repo = std::env::var("VERIF_REPO").unwrap_or_else(|_| "/repo".into());
+    let mut out = vec![];
+    let mut files: Vec<std::path::PathBuf> = std::fs::read_dir(format!("{}/src", repo)).map(|rd| rd.flatten().map(|e| e.path()).collect()).unwrap_or_default();
+    files.sort();
+    for f in files {
+        let name = f.file_name().map(|n| n.to_string_lossy().into_owned()).unwrap_or_default();
+        if name == "verif_hooks.rs" || !name.ends_with(".rs") {
+            continue;
+        }
+        let txt = std::fs::read_to_string(&f).unwrap_or_default();
+        let mut cur = String::new();
+        let mut in_tests = false;
+        for l in txt.lines() {
+            let t = l.trim();
+            if t.starts_with("#[cfg(test)]") || t.starts_with("mod tests") {
+                in_tests = true;
+            }
+            if in_tests {
+                continue;
+            }
+            if !l.starts_with(' ') && (t.starts_with("impl") || t.starts_with("unsafe impl")) {
+                cur = t.trim_end_matches('{').trim().to_string();
+                if cur.contains(" for ") {
+                    out.push(format!("{} :: {}", name, cur));
+                }
+            } else if let Some(i) = t.find("pub fn ").or_else(|| t.find("pub unsafe fn ")).or_else(|| t.find("pub const fn ")) {
+                if t[..i].trim().is_empty() || t[..i].trim().starts_with("#[") {
+                    let sig: String = t[i..].split('(').next().unwrap_or("").to_string();
+                    out.push(format!("{} :: {} :: {}", name, cur, sig));
+                }
+            }
+        }
+    }
+    out.sort();
+    out.dedup();
+    out
+}
+
+pub fn new_api_items() -> Vec<String> {
+    let base = std::fs::read_to_string(verif_root().join("api_baseline.txt")).unwrap_or_default();
+    let known: BTreeSet<&str> = base.lines().collect();
+    if known.is_empty() {
+        return vec![];
+    }
+    api_inventory().into_iter().filter(|i| !known.contains(i.as_str())).collect()
 }
 
 /// names of the `pub unsafe fn`s in /repo/src that no unsafe template mentions (the list above is written by
@@ -702,7 +756,7 @@ fn verdict(p: &Probe, codes: &[String]) -> Result<(), String> {
         "auto" => vec!["E0277"],
         "unsafe" => vec!["E0133"],
         "mut" => vec!["E0596"],
-        "noapi" => vec!["E0277", "E0599", "E0594", "E0308", "E0596", "E0614", "E0282", "E0609", "E0610"],
+        "noapi" => vec!["E0277", "E0599", "E0594", "E0308", "E0596", "E0614", "E0282", "E0609", "E0610", "E0615", "E0616"],
         _ => BORROW_CODES.to_vec(),
     };
     if p.expect_reject {
@@ -790,6 +844,10 @@ pub fn run_parent(tier: Tier, seed: u64) -> i32 {
     let unlisted = unlisted_unsafe_fns();
     if !unlisted.is_empty() {
         println!("note: `pub unsafe fn`s in /repo/src without an unsafe-call probe (extend unsafe_templates): {:?}", unlisted);
+    }
+    let new_api = new_api_items();
+    for i in &new_api {
+        println!("NEW-API (not covered by any check; review by hand): {}", i);
     }
     let dir = std::env::temp_dir().join(format!("tv-probes-{}", std::process::id()));
     let _ = std::fs::remove_dir_all(&dir);
@@ -916,6 +974,7 @@ pub fn run_parent(tier: Tier, seed: u64) -> i32 {
             "samples": samples,
             "class_histogram": hist,
             "batches": batches.len(),
+            "new_public_items_not_covered": new_api,
             "inconclusive": infra,
         }),
         &["the sandbox's stable rustc with default features; the borrow / dropck templates additionally on nightly with unstable_dropck_eyepatch (skipped with a note if that build fails)".to_string(), "decides the generated witnesses, generic probes and templates; nothing about programs outside the grammar".to_string()],
